@@ -23,7 +23,9 @@ LEVEL_TEXT = (
     "Bounded exploration: multi-engine programs (SQL + two iteration engines, transfers, materializations, joins, "
     "chains, engine-restricted column functions) and base-tree + final-operation cases issued with every option "
     "combination; every relation returned by any call - and every processed tree - is walked node by node for the "
-    "invariants the statement lists; the three documented no-op calls must return the identical object."
+    "invariants the statement lists; the three documented no-op calls must return the identical object (also on the "
+    "result of every optioned request); cross-engine join / chain requests between the relations of a program and joins to "
+    "the join identity of another engine (every route, incl. the low-level partial join) must raise or return a well-formed tree."
 )
 LEVEL_NOTE = "trusts: the walker vf/core/wellformed.py reads public dataclass fields; engine restrictions are read from the decoded AST, not from is_supported_by alone"
 RULE = (
